@@ -244,7 +244,23 @@ def h_hive_bool_and_two_columns(x: bool, i_n: int, s: str) -> bool:
 
 
 def replay_h_hive_bool_and_two_columns(x, i_n, s):
-    return None, "no concrete driver"
+    import shutil, tempfile
+    import pandas as pd
+    import fastparquet
+    n = INTS[i_n]
+    df = pd.DataFrame({"p": [x, x], "q": [n, n], "r": [s, s], "v": [1, 2]})
+    d = tempfile.mkdtemp(prefix="c08-")
+    try:
+        dn = os.path.join(d, "ds")
+        fastparquet.write(dn, df, file_scheme="hive", partition_on=["p", "q", "r"])
+        out = fastparquet.ParquetFile(dn).to_pandas()
+        ok = (len(out) == 2 and all(bool(a) == x for a in out["p"]) and all(int(a) == n for a in out["q"]) and
+              all(str(a) == s for a in out["r"]))
+        if not ok:
+            return True, "keys (p=%r, q=%r, r=%r) come back as %r" % (x, n, s, out[["p", "q", "r"]].values.tolist())
+        return False, "keys preserved"
+    finally:
+        shutil.rmtree(d, ignore_errors=True)
 
 
 def h_drill_str(a: str, b: str) -> bool:
